@@ -2,6 +2,7 @@ package c17
 
 import (
 	"bytes"
+	"io"
 	"fmt"
 	"os"
 	"path/filepath"
@@ -245,6 +246,9 @@ type n3Node struct {
 	evSeq     int
 	nodeValIx int32
 	hostValIx int32
+	failLog   *failWriter
+	consDead  int32
+	stopping  int32
 }
 
 func must(err error) {
@@ -254,9 +258,48 @@ func must(err error) {
 }
 
 // newN3Node builds and starts the node, the hostile switch and the honest switch.
+// nodeOpts: how long the node stays in RoundStepNewHeight.  At the initial height a
+// consensus.State waits timeout_commit from its start before entering round 0 (a node.Node
+// additionally sleeps until genesis time before it starts anything); at later heights it
+// waits timeout_commit after a commit unless skip_timeout_commit applies.
+type nodeOpts struct {
+	gossipSleep       time.Duration
+	timeoutCommit     time.Duration
+	skipTimeoutCommit bool
+}
+
+// failWriter passes the node's log through and remembers a "CONSENSUS FAILURE" line.
+type failWriter struct {
+	w    io.Writer
+	mu   sync.Mutex
+	line string
+}
+
+func (f *failWriter) Write(p []byte) (int, error) {
+	if bytes.Contains(p, []byte("CONSENSUS FAILURE")) {
+		f.mu.Lock()
+		if f.line == "" {
+			f.line = string(p)
+			if len(f.line) > 12000 {
+				f.line = f.line[:12000]
+			}
+		}
+		f.mu.Unlock()
+	}
+	return f.w.Write(p)
+}
+
+func (f *failWriter) get() string { f.mu.Lock(); defer f.mu.Unlock(); return f.line }
+
 func newN3Node(dir string, gossipSleep time.Duration) *n3Node {
+	return newN3NodeOpts(dir, nodeOpts{gossipSleep: gossipSleep, timeoutCommit: 10 * time.Millisecond, skipTimeoutCommit: true})
+}
+
+func newN3NodeOpts(dir string, o nodeOpts) *n3Node {
+	gossipSleep := o.gossipSleep
 	n := &n3Node{dir: dir, wraps: map[string]*wrapReactor{}, mirrored: map[string]bool{}, chanCap: map[byte]int{}}
-	n.logger = log.NewFilter(log.NewTMLogger(log.NewSyncWriter(os.Stderr)), log.AllowError())
+	n.failLog = &failWriter{w: os.Stderr}
+	n.logger = log.NewFilter(log.NewTMLogger(log.NewSyncWriter(n.failLog)), log.AllowError())
 	c := cfg.TestConfig()
 	c.SetRoot(dir)
 	must(os.MkdirAll(filepath.Join(dir, "data"), 0o755))
@@ -266,6 +309,8 @@ func newN3Node(dir string, gossipSleep time.Duration) *n3Node {
 	c.Consensus.TimeoutProposeDelta = 10 * time.Millisecond
 	c.Consensus.PeerGossipSleepDuration = gossipSleep
 	c.Consensus.CreateEmptyBlocks = true
+	c.Consensus.TimeoutCommit = o.timeoutCommit
+	c.Consensus.SkipTimeoutCommit = o.skipTimeoutCommit
 	c.P2P.MaxNumOutboundPeers = 0 // PEX must not start dialling the harness' switches on its own
 	c.P2P.AllowDuplicateIP = true
 	c.P2P.AddrBookStrict = false
@@ -378,6 +423,14 @@ func newN3Node(dir string, gossipSleep time.Duration) *n3Node {
 	must(n.sw.Start())
 	must(n.hostile.Start())
 	must(n.honest.Start())
+	// the consensus state's receive routine must outlive every peer message: State.Wait returns
+	// when that routine has exited (by a recovered panic = "CONSENSUS FAILURE", or by Stop)
+	go func() {
+		n.conS.Wait()
+		if atomic.LoadInt32(&n.stopping) == 0 {
+			atomic.StoreInt32(&n.consDead, 1)
+		}
+	}()
 	return n
 }
 
@@ -479,12 +532,17 @@ func voteBytes(v *types.Vote) []byte { return consMsg(&tmcons.Vote{Vote: v.ToPro
 // mirrorStep lets the honest co-validator vote exactly what the node voted in
 // the node's current round.  Returns true if something was sent.
 func (n *n3Node) mirrorStep() (bool, error) {
+	return n.mirrorTypes(tmproto.PrevoteType, tmproto.PrecommitType)
+}
+
+// mirrorTypes mirrors only the given vote types (prevotes only = the node ends up waiting in the precommit step).
+func (n *n3Node) mirrorTypes(ts ...tmproto.SignedMsgType) (bool, error) {
 	rs := n.conS.GetRoundState()
 	if rs.Votes == nil {
 		return false, nil
 	}
 	sent := false
-	for _, t := range []tmproto.SignedMsgType{tmproto.PrevoteType, tmproto.PrecommitType} {
+	for _, t := range ts {
 		var vs *types.VoteSet
 		if t == tmproto.PrevoteType {
 			vs = rs.Votes.Prevotes(rs.Round)
@@ -557,7 +615,10 @@ func (n *n3Node) settle(d time.Duration) *cstypes.RoundState {
 	}
 }
 
+func (n *n3Node) consensusDead() bool { return atomic.LoadInt32(&n.consDead) == 1 }
+
 func (n *n3Node) stop() {
+	atomic.StoreInt32(&n.stopping, 1)
 	_ = n.hostile.Stop()
 	_ = n.honest.Stop()
 	_ = n.sw.Stop()
